@@ -167,6 +167,18 @@ def analyse(rep: Rep, params, ctx, traj=None):
         out['path_len'] = len(p.sites)
     except (nx.NetworkXNoPath, nx.NodeNotFound):
         out['path_cost'] = None
+    # the optimum of every path method is a property of the landscape: sum of edge weights / of capped exponential
+    # weights along the returned path, recomputed here from the free energies of its voxels
+    out['method_costs'] = {}
+    Fd_ = np.asarray(F.data)
+    for meth in ('dijkstra', 'bellman-ford', 'dijkstra-exp'):
+        try:
+            pm = F.optimal_path(start=start, stop=stop, method=meth)
+            sv = [tuple(int(x_ % n_) for x_, n_ in zip(s_, Fd_.shape)) for s_ in pm.sites]
+            w_ = [0.5 * (Fd_[a_] + Fd_[b_]) for a_, b_ in zip(sv[:-1], sv[1:])]
+            out['method_costs'][meth] = float(sum(min(np.exp(x_), 1e7) for x_ in w_)) if meth == 'dijkstra-exp' else float(sum(w_))
+        except (nx.NetworkXNoPath, nx.NodeNotFound):
+            out['method_costs'][meth] = None
     return out
 
 
@@ -248,6 +260,8 @@ def compare(base, other, name, amap, smap, shift, ctx, what, wit, skip_rdf, site
     else:
         ctx.check(np.array_equal(other['volume'], np.roll(base['volume'], shift, axis=(0, 1, 2))), f'{w}: density volume is not the original rolled by {shift}', wit)
         ctx.check(np.allclose(other['free_energy'], np.roll(base['free_energy'], shift, axis=(0, 1, 2)), rtol=1e-9, atol=0), f'{w}: free-energy grid is not the original rolled by {shift}', wit)
+        for meth in base.get('method_costs', {}):
+            ctx.check(feq(other['method_costs'].get(meth), base['method_costs'][meth], 1e-9), f'{w}: cost of the optimal path with method={meth!r} is {other["method_costs"].get(meth)!r} vs {base["method_costs"][meth]!r} in the original', wit)
         ctx.check(feq(other['path_cost'], base['path_cost'], 1e-9), f'{w}: optimal path cost {other["path_cost"]!r} (endpoints {other["path_endpoints"]}) vs {base["path_cost"]!r} (endpoints {base["path_endpoints"]})', wit)
     return True
 
